@@ -107,7 +107,7 @@ def parse_lay(s):
     return out
 
 
-GROW = ('app', 'ext', 'exts', 'fin')
+GROW = ('app', 'ext', 'exts', 'fin', 'extbad')
 
 
 # ------------------------------------------------------------------ naive tracker
@@ -210,6 +210,12 @@ class Tracker:
             S[i]['c'] += (S[i]['pend'] or []) + [self.cell(e) for e in els if e]
             S[i]['pend'] = None
             return 'ok'
+        if o == 'extbad':
+            els = dec_elems(f[4])
+            S[i]['grew'] = self.t
+            S[i]['c'] += (S[i]['pend'] or []) + [self.cell(e) for e in els if e]
+            S[i]['pend'] = None
+            return 'err:Value'
         if o == 'exts':
             j = int(f[3])
             if not S[j]['c']:
@@ -544,7 +550,7 @@ def random_history(g, rng, depth, bytes_choices, ext=False):
                      'set', 'setq', 'iop', 'iop', 'op', 'cmp', 'geti', 'appc', 'extg', 'cat', 'drop', 'new', 'bad',
                      'opq', 'opq', 'bit']
             if ext:
-                kinds = kinds + ['appbad', 'appbad', 'shrink', 'gett', 'gett', 'cat1', 'cat1']
+                kinds = kinds + ['appbad', 'appbad', 'shrink', 'gett', 'gett', 'cat1', 'cat1', 'extbad', 'extbad']
             kind = rng.choice(kinds)
             if s.get('narrow'):
                 # column-sliced objects (seq[idx, cols]) are only read: their rows are narrower
@@ -607,6 +613,10 @@ def random_history(g, rng, depth, bytes_choices, ext=False):
                     push(f'op:{i}:mul,{rng.choice([-1, 2, 3])}:1:0')
                 else:
                     push(f'op:{i}:add,{rng.choice([10, 100, -5])}:1:0')
+        elif kind == 'extbad':
+            if n and room:
+                good = [g.elem(rng.choice([0, 1, 2]), b) for _ in range(rng.choice([0, 1, 1, 2]))]
+                push(f'extbad:{i}:{g.bpr(rng.randrange(2))}:{rng.choice([1, 1, 0])}:{enc_elems(good)}:{rng.choice([1, 1, 2, 4])}')
         elif kind == 'appbad':
             if n or s['pend'] is not None:
                 push(f'appbad:{i}' + (':b' if g.shape[0] >= 2 and rng.random() < 0.5 else ''))
@@ -779,6 +789,12 @@ def ext_core(g, tiny):
     for a, b in ((0, 6), (1, 7), (4, 6), (0, 0), (2, 2), (5, 6), (1, 1), (0, 4)):
         out.append(pre + [f'cat1:{a},{b}'])
     out.append(pre + [f'app:0:{g.bpr()}:0:8.9', f'app:6:{g.bpr()}:0:80.90', 'cat1:0,6'])
+    # a refused extend keeps the elements before the refusal and leaves a usable sequence
+    for v in (0, 1, 3, 4, 5):
+        for pz in (1, 0):
+            for good, extra in (('11.12/13', 1), ('11.12', 3), ('e/11', 2), ('-', 1), ('e', 2)):
+                out.append(pre + [f'extbad:{v}:{g.bpr()}:{pz}:{good}:{extra}', f'app:{v}:{g.bpr()}:0:14.15',
+                                  f'geti:{v}:-1', f'seti:{v}:0:5', f'ext:{v}:{g.bpr()}:1:16/17'])
     # a cached build: every append checks the trailing shape, a refusal changes nothing
     for v in (0, 1, 4):
         for bad in ['appbad:{v}'] + (['appbad:{v}:b'] if g.shape[0] >= 2 else []):
@@ -870,6 +886,11 @@ def _check_history(toks, steps, lays, fails, known):
                         skip = True      # extend(list) during a cached build: misuse, never generated
                     exp[i] = prev[i] + (pend.get(i) or []) + [e for e in els if e]
                     pend[i] = None
+            elif o == 'extbad':
+                # list semantics: the elements before the refused one are kept, an error is reported
+                exp_res = 'err:Value'
+                exp[i] = prev[i] + (pend.get(i) or []) + [e for e in dec_elems(f[4]) if e]
+                pend[i] = None
             elif o == 'exts':
                 j = int(f[3])
                 if prev[j]:
@@ -980,7 +1001,7 @@ def _check_history(toks, steps, lays, fails, known):
                               '(the name is silently rebound to a detached sequence)'))
             elif exp_res != res:
                 fails.append(('result', k, f'{tok}: expected {exp_res}, got {res}'))
-            if exp_res != 'ok' and exp_res == res:
+            if exp_res != 'ok' and exp_res == res and o != 'extbad':
                 exp = {i: v for i, v in prev.items()}          # a refusal changes nothing
                 new_idx = None
             if exp_res == res or res == 'ok':
